@@ -5,7 +5,7 @@ from vlib.harness import Harness
 from vlib.symx import Violation, assume, native, pick, reached
 
 CO_VARARGS, CO_VARKEYWORDS = 4, 8
-POOL = tuple('n%d' % i for i in range(12))
+POOL = tuple('n%d' % i for i in range(24))     # enough names for the largest thorough layout (8 + 3 + 3)
 
 
 class _Code:
